@@ -10,6 +10,14 @@ RULE = ("real wishbone.Arbiter with 1-5 initiators (thorough -8), random feature
         "continuously, owners release in turn) streams; non-trivial = at least 2 initiators and ownership changed at least twice")
 FE = ["err", "rty", "stall", "lock", "cti", "bte"]
 GR = (8, 16, 32, 64)
+RULE = ("idx%6: 0 random (every input fresh each cycle), 1-2 sticky (inputs change with a per-case probability), "
+        "3 exhaustive (n <= 2, thorough <= 3: every (cyc,stb,lock)^n combination from every grant value), 4 many "
+        "(6..20 initiators, sparse requests), 5 contention (everybody requests, the bus is let go every few cycles).  "
+        "Mid-run synchronous resets: about 30 % of the cases with >= 2 initiators whose add() calls are all accepted "
+        "(one initiator = no register at all) assert the sync reset in 1-3 cycles (ResetInserter around the real "
+        "arbiter); most of them are placed where an initiator other than the power-on owner holds the bus, preferably "
+        "in the middle of its cycle (cyc with stb or lock), and the initiators' inputs are held through the reset.  "
+        "Non-trivial: >= 2 initiators and ownership changed at least twice (not counting changes made by a reset).")
 
 
 def fan(sel, n, r):
@@ -58,8 +66,44 @@ def rand_bin(rnd, cfg):
             rnd.randrange(1 << cfg["dw"])]
 
 
+def may_refuse(cfg):
+    """Stimulus shaping only: some add() will (or may) be refused, so nothing is ever simulated."""
+    fa = cfg["feat"]
+    return any("aw" in ic or "dw" in ic or ic["g"] < cfg["g"] or (fa[0] and not ic["feat"][0]) or
+               (fa[1] and not ic["feat"][1]) for ic in cfg["intrs"])
+
+
+def add_resets(rnd, case):
+    """Mid-run synchronous resets for ~30 % of the cases that have a grant register (>= 2 initiators).  Called
+    last: every case's stimulus is what it was without this feature, except right after a reset."""
+    cfg = case["cfg"]; stim = case["stim"]; n = len(cfg["intrs"])
+    if n < 2 or may_refuse(cfg) or len(stim) <= 20 or rnd.random() >= 0.3:
+        return case
+    T = len(stim)
+    case["resets"] = []
+    for _ in range(rnd.choice([1, 1, 2, 3])):
+        busys, owners = oracle_trace(case)       # with the resets placed so far
+        free = [t for t in range(3, T - 3) if t not in case["resets"]]
+        away = [t for t in free if owners[t] != 0]
+        mid = [t for t in away if busys[t]]
+        u = rnd.random()
+        pool = mid if (u < 0.5 and mid) else away if (u < 0.8 and away) else free
+        r = rnd.choice(pool)
+        case["resets"] = sorted(case["resets"] + [r])
+        if case["kind"] != "exh" and rnd.random() < 0.7:
+            # every initiator keeps its inputs through the reset (and for a cycle or two after it)
+            for d in range(1, rnd.choice([2, 2, 3])):
+                if r + d < T and (r + d) not in case["resets"]:
+                    stim[r + d][0] = [list(x) for x in stim[r][0]]
+    return case
+
+
 def gen_case(seed, tier, idx):
     rnd = mkrnd(seed, "arbiter", idx)
+    return add_resets(rnd, gen_case0(rnd, tier, idx))
+
+
+def gen_case0(rnd, tier, idx):
     kind = idx % 6
     if kind == 3:
         return gen_exhaustive(rnd, tier)
@@ -165,6 +209,41 @@ def to_model(case):
     return [c, case["stim"]]
 
 
+def _segments(case):
+    """[(first, last)] cycle ranges; a segment ends with the cycle in which the reset is asserted"""
+    rs = sorted(set(r for r in case.get("resets", []) if 0 <= r < len(case["stim"]) - 1))
+    out, a = [], 0
+    for r in rs:
+        out.append((a, r)); a = r + 1
+    out.append((a, len(case["stim"]) - 1))
+    return out
+
+
+def reset_cycles(case):
+    """Cycles in which the reset is asserted and that have a successor in the trace."""
+    return [b for (a, b) in _segments(case)[:-1]] if case["stim"] else []
+
+
+def model_cases(case):
+    """A mid-run synchronous reset starts the model again from its initial state (grant 0): one model run per
+    segment, same configuration."""
+    head = to_model(case)[0]
+    if not case["stim"]:
+        return [to_model(case)]
+    return [[head, case["stim"][a:b + 1]] for (a, b) in _segments(case)]
+
+
+def model_join(case, results):
+    """[rows, state after the last cycle]: rows are concatenated, the final state is the last segment's.  A
+    refused add() ([-2, k], the same in every segment) or an undecodable segment is passed on as it is."""
+    rows = []
+    for r in results:
+        if not (isinstance(r, list) and len(r) == 2 and isinstance(r[0], list)):
+            return r
+        rows += r[0]
+    return [rows, results[-1][1]]
+
+
 def build(cfg):
     from amaranth_soc import wishbone
     feats = lambda f: {FE[k] for k in range(6) if f[k]}
@@ -220,7 +299,18 @@ def run_impl(case):
     gs = S.find_signals(frag, "grant")
     if len(gs) == 1 and len(gs[0]):
         outs.append(gs[0]); out_idx.append(("g", 0, 0))
-    rows = S.simulate(arb, ins, outs, stim, frag=frag)
+    rst = reset_cycles(case)
+    if rst:
+        from amaranth.hdl import Elaboratable
+
+        class Elaborated(Elaboratable):
+            """The arbiter's own, already elaborated fragment: sim.simulate puts its ResetInserter around the very
+            design whose `grant` register (a local of elaborate()) was found above; nothing is elaborated twice."""
+            def elaborate(self, platform):
+                return frag
+        rows = S.simulate(Elaborated(), ins, outs, stim, reset_at=rst)
+    else:
+        rows = S.simulate(arb, ins, outs, stim, frag=frag)
     obs = []
     n = len(intrs)
     for r in rows:
@@ -248,25 +338,30 @@ def canon(obs):
 
 
 def nontrivial(case, obs):
-    """>= 2 initiators and ownership changed at least twice."""
+    """>= 2 initiators and ownership changed at least twice (changes made by a reset do not count)."""
     if len(case["cfg"]["intrs"]) < 2 or not obs or obs[0] == -2:
         return False
     owners = oracle_trace(case)[1]
-    return sum(1 for a, b in zip(owners, owners[1:]) if a != b) >= 2
+    resets = set(reset_cycles(case))
+    return sum(1 for t, (a, b) in enumerate(zip(owners, owners[1:])) if a != b and t not in resets) >= 2
 
 
 def oracle_trace(case):
-    """Owner sequence by the property's own statement (C09): round-robin when not busy."""
+    """Owner sequence by the property's own statement (C09): round-robin when not busy; initiator 0 at power-on
+    and again after every reset."""
     cfg = case["cfg"]; n = len(cfg["intrs"]); fa = cfg["feat"]
     g = 0; owners = []; busys = []
-    for (irows, brow) in case["stim"]:
+    resets = set(reset_cycles(case))
+    for t, (irows, brow) in enumerate(case["stim"]):
         owners.append(g)
         o = irows[g]; fi = cfg["intrs"][g]["feat"]
         cyc, stb = o[0], o[1]
         lock = o[6] if fi[3] else 0
         busy = cyc and ((lock or stb) if fa[3] else 1)
         busys.append(bool(busy))
-        if not busy:
+        if t in resets:
+            g = 0
+        elif not busy:
             for d in range(1, n):
                 j = (g + d) % n
                 if irows[j][0]:
@@ -282,6 +377,7 @@ def oracle(case, obs):
         return []
     cfg = case["cfg"]; fa = cfg["feat"]; n = len(cfg["intrs"]); dw = cfg["dw"]
     out = []
+    resets = set(reset_cycles(case))
     for t, ((irows, brow), (b, io, g)) in enumerate(zip(case["stim"], obs)):
         if g >= n:
             out.append(("C08", t, f"grant {g} names no initiator")); break
@@ -305,7 +401,15 @@ def oracle(case, obs):
             g2 = obs[t + 1][2]
             lock = (o[6] if fi[3] else 0)
             busy = o[0] and ((lock or o[1]) if fa[3] else 1)
-            if busy:
+            if t in resets:
+                # a synchronous reset puts the arbiter back into its power-on state, the one state both properties
+                # start from: the owner of the next cycle is the power-on owner (the one observed in cycle 0),
+                # whatever the requests are and whether or not the present owner is in the middle of a cycle
+                if g2 != obs[0][2]:
+                    for pid in ("C08", "C09"):
+                        out.append((pid, t, f"sync reset asserted while {g} owned the bus ({'cycle in progress' if busy else 'bus released'}); "
+                                            f"next owner {g2}, the power-on owner is {obs[0][2]}"))
+            elif busy:
                 if g2 != g:
                     out.append(("C08", t, f"owner changed {g}->{g2} while its cycle was in progress"))
             else:
@@ -327,8 +431,28 @@ def oracle(case, obs):
 def describe(case):
     cfg = case["cfg"]
     return {"engine": "arbiter", "kind": case["kind"], "n": len(cfg["intrs"]), "dw": cfg["dw"],
-            "g": cfg["g"], "feat": cfg["feat"], "cycles": len(case["stim"]),
+            "g": cfg["g"], "feat": cfg["feat"], "cycles": len(case["stim"]), "resets": case.get("resets", []),
             "first_cycle": case["stim"][0] if case["stim"] else None}
+
+
+def stats(case, obs):
+    """Integer counters (summed over cases by the runner): where the mid-run resets landed."""
+    n = len(case["cfg"]["intrs"])
+    st = {"cases.refused" if (obs and obs[0] == -2) else f"cases.n{'1' if n == 1 else '2-5' if n <= 5 else '6+'}": 1}
+    if not obs or obs[0] == -2:
+        return st
+    st["cycles"] = len(obs)
+    rs = reset_cycles(case)
+    if rs:
+        busys, owners = oracle_trace(case)
+        st["cases.with_resets"] = 1
+        st["resets"] = len(rs)
+        st["resets.owner_not_power_on_owner"] = sum(1 for t in rs if obs[t][2] != obs[0][2])
+        st["resets.owner_cycle_in_progress"] = sum(1 for t in rs if obs[t][2] != obs[0][2] and busys[t])
+        st["resets.inputs_held_through"] = sum(1 for t in rs if case["stim"][t + 1][0] == case["stim"][t][0])
+        st["resets.former_owner_regains_bus_within_4"] = sum(
+            1 for t in rs if obs[t][2] != obs[0][2] and any(o[2] == obs[t][2] for o in obs[t + 2:t + 6]))
+    return st
 
 
 def shrink(case, fails):
@@ -349,4 +473,6 @@ def shrink(case, fails):
         if fails(c):
             best = c
             break
+    if "resets" in best:       # resets the shortened trace no longer contains have no effect: drop them
+        best = dict(best); best["resets"] = [r for r in best["resets"] if r < len(best["stim"]) - 1]
     return best
